@@ -21,7 +21,7 @@ discharged below for identifiers and parenthesised expressions.
 namespace PycModel.C02
 open PycModel PycModel.Climb PycModel.ClimbSim PycModel.ClimbConcrete PycModel.View
 
-variable {ty : String → Bool}
+variable {env : Env}
 
 /-- **Binary operators group exactly as the C grammar says.** In every parser state that sees the
 in-order tokens of a tree `t` of the level-`m` expression nonterminal followed by a continuation
@@ -32,13 +32,13 @@ the left - each at the coordinate of its left operand, and leaves exactly `k` un
 The stream behaviour of `peek` / `advance` is proved (`Proofs/TokenView.lean`), not assumed. -/
 theorem binary_operators_group_as_the_grammar_says
     (Op : Nat → Val → List Tk → Nat → Prop) (Follow : List Tk → Prop) (fuel0 N : Nat)
-    (hop : OperandSpec ty Op Follow)
+    (hop : OperandSpec env Op Follow)
     (t : BT) (m : Nat) (hwf : WF binPrec m t) (hn : Nodes t)
     (k : List PT) (hk : StopAt binPrec m k) (hkt : ∀ x ∈ k, PTok' x)
-    (s : PState) (hs : SeesPT ty Op Follow fuel0 N s (t.toks ++ k)) :
+    (s : PState) (hs : SeesPT env Op Follow fuel0 N s (t.toks ++ k)) :
     ∀ F, 2 * t.size + fuel0 ≤ F →
-      ∃ s', run F (.binaryExpression m none) s = .ok (toVal t) s' ∧ SeesPT ty Op Follow fuel0 N s' k :=
-  binary_expression_parses_grammar_tree (iface ty Op Follow fuel0 N hop) t m hwf hn k hk hkt s hs
+      ∃ s', run F (.binaryExpression m none) s = .ok (toVal t) s' ∧ SeesPT env Op Follow fuel0 N s' k :=
+  binary_expression_parses_grammar_tree (iface env Op Follow fuel0 N hop) t m hwf hn k hk hkt s hs
 
 /-- the pure algorithm (mirror of the two nested loops) returns the grammar's tree on every
 well-formed token list, for every sufficient fuel -/
@@ -76,9 +76,9 @@ transparent, every `ID` at its own token, every `BinaryOp` at its left operand's
 consuming exactly the tokens of `e`, with fuel `E.fuel e <= 9 * (number of tokens)`. -/
 theorem expressions_parse_as_the_grammar_says (e : E) (m : Nat) (s : PState) (stop : Tk) (rest : List Tk)
     (hwf : WFE m e) (hstop1 : binPrec stop.1 = none) (hstop2 : stop.1 ∉ postfixStarters)
-    (hs : SeesT (fun _ => false) s (e.flat ++ stop :: rest)) :
+    (hs : SeesT env s (e.flat ++ stop :: rest)) :
     ∀ F, e.fuel ≤ F → ∃ s', run F (.binaryExpression m none) s = .ok (e.val s.idx) s' ∧
-      SeesT (fun _ => false) s' (stop :: rest) ∧ s'.idx = s.idx + e.ntoks :=
+      SeesT env s' (stop :: rest) ∧ s'.idx = s.idx + e.ntoks :=
   (parse_ok e).1 m s stop rest hwf hstop1 hstop2 hs
 
 /-- non-vacuity: `(a - b) * (c - (d)) == e ;` from the initial state -/
@@ -91,7 +91,7 @@ example : ∀ F, 90 ≤ F → ∃ s',
               mk .BinaryOp (some ⟨"", 1, some 2⟩) [.str "*",
                 mk .BinaryOp (some ⟨"", 1, some 2⟩) [.str "-", ParenExpr.idNode 1 "a", ParenExpr.idNode 3 "b"],
                 mk .BinaryOp (some ⟨"", 7, some 8⟩) [.str "-", ParenExpr.idNode 7 "c", ParenExpr.idNode 10 "d"]],
-              ParenExpr.idNode 14 "e"]) s' ∧ SeesT (fun _ => false) s' [("SEMI", ";")] := by
+              ParenExpr.idNode 14 "e"]) s' ∧ (∃ env, SeesT env s' [("SEMI", ";")]) := by
   let e : E := .bin "EQ" "=="
     (.bin "TIMES" "*" (.paren (.bin "MINUS" "-" (.id "a") (.id "b")))
                       (.paren (.bin "MINUS" "-" (.id "c") (.paren (.id "d")))))
@@ -107,7 +107,7 @@ example : ∀ F, 90 ≤ F → ∃ s',
   intro F hF
   obtain ⟨s', hr, hs', _⟩ := expressions_parse_as_the_grammar_says e 0 _ ("SEMI", ";") [] hwf (by decide) (by decide) hs F
     (Nat.le_trans (by decide) hF)
-  exact ⟨s', hr, hs'⟩
+  exact ⟨s', hr, _, hs'⟩
 
 /-! ## the whole expression grammar above type names -/
 open PycModel.FullExpr in
@@ -129,9 +129,9 @@ Nothing is assumed about the parser: `peek`/`advance`/`reset` behave as a token 
 everything that contains a type name (casts, `sizeof(type)`, compound literals, `_Alignof`,
 `offsetof`) and string literals. -/
 theorem expression_skeleton_parses_as_the_grammar_says (e : X) (hwf : WFX 0 e) (s : PState)
-    (stop : Tk) (rest : List Tk) (hstop : StopX stop.1) (hs : SeesT (fun _ => false) s (e.flat ++ stop :: rest))
+    (stop : Tk) (rest : List Tk) (hstop : StopX stop.1) (hs : SeesT env s (e.flat ++ stop :: rest))
     (F : Nat) (hF : 13 * e.ntoks ≤ F) :
-    ∃ s', run F .expression s = .ok (e.val s.idx) s' ∧ SeesT (fun _ => false) s' (stop :: rest) ∧ s'.idx = s.idx + e.ntoks :=
+    ∃ s', run F .expression s = .ok (e.val s.idx) s' ∧ SeesT env s' (stop :: rest) ∧ s'.idx = s.idx + e.ntoks :=
   parse_full e hwf s stop rest hstop hs F (Nat.le_trans (FullExpr.fuel_linear e) hF)
 
 end PycModel.C02
